@@ -359,6 +359,7 @@ class Interp:
             self.objects = []
             self.bindings = {}
             self.conds = []
+            self.decided = {}
             self.depth = 0
             args, kwargs = make_args()
             self.cur_args = (args, kwargs)
@@ -435,8 +436,12 @@ class Interp:
             return True
         if not isinstance(v, Unknown):
             return bool(v)
+        if v.text in self.decided:
+            # the same (pure) condition was decided earlier on this path: stay consistent, do not fork again
+            return self.decided[v.text]
         i = self.choose(2, v.text)
         d = i == 0
+        self.decided[v.text] = d
         self.trace[-1] = (v.text, d, i, 2)
         self.conds.append((v, d))
         self.learn(v, d)
@@ -839,6 +844,15 @@ class Interp:
                 r = r.concrete()
             if opname in ("is", "is not") and (l is None or r is None) and isinstance(r if l is None else l, (AObj, AList, SymList, BV, EnumMember)):
                 if opname == "is":
+                    return False
+                left = right
+                continue
+            if opname in ("in", "not in") and isinstance(r, (dict, set, frozenset)) and (_is_conc(l) or isinstance(l, (AObj, EnumMember))):
+                try:
+                    member = l in r
+                except TypeError:
+                    member = False
+                if member != (opname == "in"):
                     return False
                 left = right
                 continue
@@ -1259,6 +1273,10 @@ class Interp:
                 return AFormat(obj, args)
             if all(_is_conc(a) for a in args):
                 return getattr(obj, attr)(*args)
+        if isinstance(obj, dict) and attr in ("items", "keys", "values") and not args:
+            return list(getattr(obj, attr)())
+        if isinstance(obj, dict) and attr == "get" and args and isinstance(args[0], (AObj, EnumMember, int, str)):
+            return obj.get(*args)
         if isinstance(obj, (bytes, tuple, dict)) and all(_is_conc(a) for a in args):
             return getattr(obj, attr)(*args)
         if isinstance(obj, AObj):
